@@ -30,6 +30,7 @@ func checkC12(c *Ctx) {
 			fns = append(fns, rd)
 		}
 		ruleErrorsReturnedAs(c, fns, "R12.5", nil)
+		c.importRules(checkC09, []string{"R9.9"}, "R12.5") // a decoder panic must become that file's error, not abort the load of all four directories
 		c.MinCount("R12.5", 8)
 	}
 	c.MinCount("R12.1", 11)
